@@ -60,6 +60,10 @@ CLAIMED = {
     "C08": ("GUARD rule over the natural loops of SimbodyMatterSubsystemRep that walk the constraint set (isConstraintDisabled on the loop variable before any use, or delegation to callees with a verified entry guard)",
             "Static decision of ONE clause of C08 only, 'disabled constraints have no effect on any result' (DESIGN section 3): every constraint loop that computes with a State skips disabled constraints or calls only self-guarding callees; "
             "six loops visit every declared constraint on purpose (tabled with reasons). Constraint satisfaction, the multiplier solve, Newton's law and constraint power are numerical and NOT decided."),
+    "C13": ("PAIR+- structural rule on the action/reaction applications of every two-body element (targets, signs, force expression, own station/arm, body numbering) and FRAME monogram adjacency in the force routines",
+            "Static decision of the structural clauses of C13 (DESIGN section 3): for the seven elements that apply action and reaction in one function, the two applications form a +/- pair on two different bodies with the same force and each body's own arm; "
+            "frame adjacency at every parseable rotation/transform product. Magnitudes, and the balance of elements whose two spatial forces are computed separately (LinearBushing, CompliantContact, cables), are NOT decided. "
+            "FRAME reads the programmer's monogram names (a false-but-conforming rename would fire; a non-conforming one only lowers coverage)."),
 }
 NA = {
  "C01": "numerical identity between O(n) recursions; no clause is visible in the shape of the code",
